@@ -9,6 +9,7 @@ from vlib import frontend, refcodec
 from vlib.runner import Ctx, HarnessError, Violation, hyp_run, unpickle_b64
 
 LEVEL = "exploration"
+ALSO_UNDER_O = True  # a second, smaller run in an interpreter started with -O
 RULE = (
     "C01 schemas/values; for each canonical encoding b (reference encoder): every strict prefix b[:k] (all k when "
     "len(b) <= 48, else 48 evenly spaced cut points (12 plus the last three bytes beyond 1 KiB) plus cuts directly after "
